@@ -113,7 +113,7 @@ package storage
 //@   assumed
 //@   modifies ghost.rec_n ghost.rec_key ghost.rec_val ghost.rec_uk ghost.rec_rev ghost.it_pos
 //@   ensures [non-nil] err == nil ==> it != nil && it_pos == 0 && rec_n >= 0 && rec_n <= 0x1000000000000
-//@   ensures [sorted-by-key-then-revision] err == nil && bytes_cmp(start, end) < 0 ==> sorted_seq(rec_uk, rec_rev, rec_n)
+//@   ensures [sorted-by-key-then-revision] err == nil ==> sorted_seq(rec_uk, rec_rev, rec_n)
 //@   ensures [records-are-internal-keys] err == nil ==> forall(i, 0 <= i && i < rec_n, is_internal_key(rec_key[i]) && rec_rev[i] == key_rev(rec_key[i]) && rec_key[i].obj <= alloc && rec_val[i].obj <= alloc && (rec_rev[i] == 0 ==> len(rec_val[i]) >= 8))
 // assumed about the stored data: an index record's value (8 revision bytes, optionally one flag byte)
 // never equals the 9 bytes "tombstone" -- that would take revision 0x746f6d6273746f6e with flag 'e'
